@@ -22,7 +22,11 @@ use iroh_dns_server::verif_hooks::{c38::Zones, sched};
 
 const POINTS: [&str; 5] = [
     "zonestore.resolve.after_check",
-    "zonestore.resolve.after_get",
+    // model point 2 ("after_get"): parked INSIDE `SignedPacketStore::get`, right after the store actor
+    // answered with a packet and before the caller runs another instruction -- so anything the
+    // caller does between the read and its old `zonestore.resolve.after_get` pause (left unarmed)
+    // is on the far side of the park.  Disarmed while a TGet step runs (it is no model event there).
+    "signedpacketstore.get.after_read",
     "zonestore.insert.after_upsert",
     // inside the two cache lock scopes of resolve (the cache mutex is held while parked there)
     "zonestore.resolve.in_cache_check",
@@ -649,6 +653,11 @@ fn run_case(rt: &tokio::runtime::Runtime, tasks: &[Task], sched: &[(usize, bool)
             }
             continue;
         }
+        let is_get = matches!(tasks[i], Task::G(..));
+        if is_get {
+            // only this task runs during its step (the others are parked or wait for the mutex)
+            sched::disarm(POINTS[1]);
+        }
         match r.live[i].ticket.take() {
             Some(t) => sched::release(t),
             None => {
@@ -679,6 +688,9 @@ fn run_case(rt: &tokio::runtime::Runtime, tasks: &[Task], sched: &[(usize, bool)
         } else {
             r.advance(i, hold, true, long, false)
         };
+        if is_get {
+            sched::arm(POINTS[1]);
+        }
         match o {
             Obs::Blocked => r.queue.push(i),
             Obs::Err => broken = true,
